@@ -30,7 +30,7 @@ ASSUMPTIONS = [
     "reference ordered-set + TTL model in this file (insertion order of survivors; TTL merged by union/intersection/update/add(ttl))",
     "case-insensitivity of embedded names is demanded for the RFC 4034 §6.2 types (minus NSEC); LP and CH A are owned by C15",
 ]
-REQUIRED = ["mon.immutability_attack", "mon.deep_walk", "mon.deep_walk_other_producers", "mon.eq_hash_order", "mon.set_step", "mon.rdataset_step", "mon.immutable_rdataset_mutator", "mon.immutable_rdataset_source_mutated"]
+REQUIRED = ["mon.immutability_attack", "mon.deep_walk", "mon.deep_walk_other_producers", "mon.eq_hash_order", "mon.set_step", "mon.rdataset_step", "mon.immutable_rdataset_mutator", "mon.immutable_rdataset_source_mutated", "mon.callers_mutable_arguments"]
 BUDGET = {"quick": 40.0, "thorough": 420.0}
 
 SINGLETONS = {5, 6, 39, 47, 30}  # CNAME SOA DNAME NSEC NXT
@@ -197,6 +197,64 @@ def check_value_immutability(ctx, val):
         ctx.violation(f"record-changed-by-attacks:{t}", "", case)
     ctx.seen(("imm", t, val.tags))
     return rd
+
+
+def check_callers_arguments(ctx, val):
+    """the record is a value of its own: built from the caller's MUTABLE containers (bytearray for octets, lists for sequences
+    and bitmap windows) it either refuses them or copies them -- changing the caller's objects afterwards changes nothing"""
+    t = val.tname
+    case = {"kind": "callers-args", "type": t}
+    mine = []  # every mutable object handed in
+
+    def soften(a, depth=0):
+        if isinstance(a, bytes) and depth > 0 or isinstance(a, bytes) and t in ("UNKNOWN", "NULL", "OPENPGPKEY", "DHCID"):
+            b = bytearray(a)
+            mine.append(b)
+            return b
+        if isinstance(a, tuple) and a and not isinstance(a[0], str) and all(isinstance(x, (bytes, tuple, int)) for x in a) and not all(isinstance(x, int) for x in a):
+            window_entry = any(isinstance(x, int) for x in a)  # (window number, bitmap): the bitmap must be bytes, the pair may be a list
+            l = [x if window_entry else soften(x, depth + 1) for x in a]
+            mine.append(l)
+            return l
+        return a
+
+    args = [soften(a) for a in val.args]
+    if not mine:
+        return
+    ctx.count("mon.callers_mutable_arguments")
+    try:
+        rd = GR.build(GR.Val(val.rdclass, val.rdtype, val.tname, args, val.parts, val.tags))
+    except Exception:
+        ctx.count("obs.mutable_arguments_refused")
+        return
+    if val.has_relative():
+        return
+    try:
+        w0, h0 = rd.to_wire(), hash(rd)
+    except Exception:
+        return
+    for m in mine:
+        if isinstance(m, bytearray):
+            if len(m):
+                m[0] ^= 0x5A
+            else:
+                m.append(1)
+        else:
+            if m:
+                m.pop()
+            m.append((0, b"\x01") if t in ("NSEC", "NSEC3", "CSYNC") else b"x")
+    try:
+        w1, h1 = rd.to_wire(), hash(rd)
+    except Exception as e:
+        ctx.violation(f"record-follows-the-callers-mutable-argument:{t}", f"after the caller changed its own objects the record cannot be encoded: {e!r}", case)
+        return
+    if w1 != w0 or h1 != h0:
+        ctx.violation(f"record-follows-the-callers-mutable-argument:{t}", f"wire {w0.hex()[:60]} -> {w1.hex()[:60]}", case)
+        return
+    bad = []
+    deep_walk(ctx, rd, t, set(), bad)
+    for path, kind in bad:
+        ctx.violation(f"mutable-container-in-record:{t}:built-from-mutable-arguments", f"{path} is a {kind}", case)
 
 
 def check_name_immutability(ctx, labels):
@@ -811,6 +869,7 @@ def run(spec, ctx):
                 break
             val = GR.gen(rng, t, None, False)
             rd = check_value_immutability(ctx, val)
+            check_callers_arguments(ctx, val)
             if rd is not None:
                 pool_vals.append(val)
             if i == 0:
